@@ -362,6 +362,48 @@ example : shapeOfField (genShapeOf (some "lxc") false true) = .own ∧
     shapeOfField (genShapeOf none false false) = .global := by decide
 example : (g3m.node 1).shape = shapeOfField (genShapeOf (some "lxc") false true) := by decide
 
+/-! ### The threshold of `is_occupied`
+
+`genIsOccupied` is regenerated from `TestNode.is_occupied`: `max(get_numeric("max_concurrent_tries",
+get_numeric("max_tries", 1)), 1)` handed to `is_started`.  The model keeps the static parameters (`Node.mct`,
+`Node.maxTries`) and counts the emergency increments separately (`NodeDyn.bump`); `mctParam` says what the parameter
+`max_concurrent_tries` of the real copy is in a state of the model — the static one while nobody bumped it, otherwise
+the result of `bump` assignments `params["max_concurrent_tries"] = params.get_numeric("max_concurrent_tries", 0) + 1`
+(graph.py, the back-off branch of `traverse_object_trees`). -/
+
+/-- the parameter `max_concurrent_tries` of copy `n` in state `s` (`none` = not set) -/
+def mctParam (g : Graph) (s : State) (n : Nat) : Option Int :=
+  if (((s.nd n).bump : Nat) : Int) > 0 then some (((g.node n).mct.getD 0) + ((s.nd n).bump : Nat)) else (g.node n).mct
+
+/-- **The hand written `isOccupied` is the Python source of `is_occupied`** (threshold computation: the default chain
+`max_concurrent_tries` → `max_tries` → 1 and the lower bound 1), for every graph, state, copy and worker; the count
+itself is `isStarted` (tied by `isStarted_matches_source`).  No hypotheses. -/
+theorem isOccupied_matches_source (g : Graph) (s : State) (n w : Nat) :
+    isOccupied g s n w = genIsOccupied (mctParam g s n) (g.node n).maxTries (fun t => isStarted g s n w t) := by
+  unfold isOccupied genIsOccupied mctOf mctParam
+  by_cases h : (((s.nd n).bump : Nat) : Int) > 0
+  · simp only [h, if_true, Option.getD_some]; rfl
+  · simp only [h, if_false]; rfl
+
+/-- `mctParam` follows the assignment of the back-off branch: one more bump is
+`params["max_concurrent_tries"] = params.get_numeric("max_concurrent_tries", 0) + 1` -/
+theorem mctParam_bump (g : Graph) (s s' : State) (n : Nat) (h : (s'.nd n).bump = (s.nd n).bump + 1) :
+    mctParam g s' n = some ((mctParam g s n).getD 0 + 1) := by
+  unfold mctParam
+  rw [h]
+  by_cases hb : (s.nd n).bump = 0
+  · simp [hb]
+  · have : (((s.nd n).bump : Nat) : Int) > 0 := by omega
+    have h2 : ((((s.nd n).bump + 1 : Nat)) : Int) > 0 := by omega
+    simp only [this, h2, if_true, Option.getD_some]
+    congr 1; omega
+
+/-- the generated definition computes: unset parameters give threshold 1, `max_tries=3` alone gives 3, an explicit
+`max_concurrent_tries=0` is raised to 1 -/
+example : genIsOccupied none none (fun t => t == 1) = true ∧ genIsOccupied none (some 3) (fun t => t == 3) = true ∧
+    genIsOccupied (some 0) (some 3) (fun t => t == 1) = true ∧ genIsOccupied (some 2) (some 3) (fun t => t == 2) = true := by
+  decide
+
 end Regenerated
 
 end I2N.Props.C04
